@@ -1,6 +1,7 @@
 package ast
 
 import (
+	"bytes"
 	"io"
 	"strings"
 
@@ -22,6 +23,14 @@ func (d *Document) PrintDescription(description Description, indent []byte, dept
 		_, err = writer.Write(indent)
 	}
 	if description.IsBlockString {
+		// The description is re-indented below from its content without the white space next to the delimiters.
+		// Where that white space matters for what the description denotes the literal is printed as it was written.
+		if source, ok := d.blockStringSourceBytes(description.Content); ok && !blockStringReflowKeepsValue(source, d.Input.ByteSlice(description.Content)) {
+			_, err = writer.Write(blockStringDelimiter)
+			_, err = writer.Write(source)
+			_, err = writer.Write(blockStringDelimiter)
+			return nil
+		}
 		_, err = writer.Write(literal.QUOTE)
 		_, err = writer.Write(literal.QUOTE)
 		_, err = writer.Write(literal.QUOTE)
@@ -82,6 +91,21 @@ func (d *Document) PrintDescription(description Description, indent []byte, dept
 		_, err = writer.Write(literal.QUOTE)
 	}
 	return nil
+}
+
+// blockStringReflowKeepsValue reports whether the content of a block string (the source without the white space next
+// to the delimiters) can be laid out on lines of its own as PrintDescription does: when the content starts on the
+// line of the opening delimiter the blanks in front of it belong to the value and would be lost.
+func blockStringReflowKeepsValue(source, content []byte) bool {
+	if len(content) == 0 {
+		return true
+	}
+	offset := bytes.Index(source, content)
+	if offset < 0 {
+		return false
+	}
+	lead := source[:offset]
+	return len(lead) == 0 || bytes.IndexAny(lead, "\n\r") >= 0
 }
 
 func (d *Document) ImportDescription(desc string) (description Description) {
